@@ -9,6 +9,12 @@ def _smaller(comp, case):
     """candidate simplifications of a case (each strictly smaller)"""
     out = []
     if "prog" in case and isinstance(case["prog"], list):
+        n = len(case["prog"])
+        if n > 8:                                   # long programs: halves and quarters first
+            for lo, hi in ((n // 2, n), (0, n // 2), (n // 4, n), (0, n // 4), (3 * n // 4, n)):
+                c = copy.deepcopy(case)
+                del c["prog"][lo:hi]
+                out.append(c)
         for i in range(len(case["prog"])):
             c = copy.deepcopy(case)
             del c["prog"][i]
@@ -59,8 +65,10 @@ def _fails(pid, stream, case):
     return failures[0] if failures else None
 
 
-def shrink(pid, rep, budget=80):
+def shrink(pid, rep, budget=80, seconds=45):
+    import time
     import propdefs
+    t_end = time.time() + seconds
     prop = propdefs.PROPS[pid]
     if "streams" not in prop or rep.get("case") is None or rep["kind"] == "harness":
         return rep
@@ -71,11 +79,11 @@ def shrink(pid, rep, budget=80):
     best = rep
     runs = 0
     improved = True
-    while improved and runs < budget:
+    while improved and runs < budget and time.time() < t_end:
         improved = False
         for cand in _smaller(stream["component"], best["case"]):
             runs += 1
-            if runs > budget:
+            if runs > budget or time.time() > t_end:
                 break
             try:
                 f = _fails(pid, stream, cand)
